@@ -226,6 +226,14 @@ func (i *Interface) updateCache(r record.Record, write bool, remove bool, ttl in
 	return false
 }
 
+// dropFromCache removes a record from the cache, eg. because it entered the
+// cache ahead of a write that was then refused. The record may not be locked.
+func (i *Interface) dropFromCache(r record.Record) {
+	if i.cache != nil {
+		i.cache.Remove(r.Key())
+	}
+}
+
 // updateCacheAfterBatchPut makes the cache reflect a record that was written
 // to the database with a batch put, which bypasses the cache.
 func (i *Interface) updateCacheAfterBatchPut(r record.Record, remove bool, ttl int64) {
